@@ -98,6 +98,11 @@ pub fn explore(ctx: &mut Ctx, label: &str) {
                     let f = Facts { anns, ..base.clone() };
                     via_builder(ctx, &f, &r, Mode::Minimal, &what);
                 }
+                if n <= 4 {
+                    // rejected calls (absent term ids) after every fact: a call that returns an error is not an annotation
+                    let f = Facts { anns: groups.interleaved(), ..base.clone() };
+                    super::common::via_builder_rejected(ctx, &f, &r, Mode::Minimal, "interleaved");
+                }
                 ctx.sample(|| json!({"dag": d.describe(), "ids": ids, "S": crate::space::bits(s, n), "orders": n_orders}));
             }
         }
@@ -358,6 +363,13 @@ pub fn explore(ctx: &mut Ctx, label: &str) {
                 let f = Facts { anns: groups.sequential(&ident), ..base.clone() };
                 via_binary(ctx, &f, &EncOpts::v(1), "canonical");
                 via_binary(ctx, &f, &EncOpts::v(2), "canonical");
+                // every record written twice (without its last term, then completely)
+                super::common::via_binary_repeated(ctx, &f, 3, "canonical");
+                let rev: Vec<usize> = ident.iter().rev().copied().collect();
+                let mut fr = Facts { anns: groups.sequential(&rev), ..base.clone() };
+                super::common::via_binary_repeated(ctx, &fr, 3, "gene 1's terms reversed");
+                fr.anns.reverse();
+                super::common::via_binary_repeated(ctx, &fr, 2, "all facts reversed");
                 ctx.sample(|| json!({"dag": d.describe(), "ids": ids, "S": crate::space::bits(s, n)}));
             }
         }
